@@ -19,6 +19,11 @@ from whoosim.kernel import HarnessError
 
 REPO_SRC = "/repo/src"
 
+# the real callables, captured before any tripwire wraps them
+_R_TIME, _R_SLEEP, _R_PERF = _real_time.time, _real_time.sleep, _real_time.perf_counter
+_R_LOCK, _R_RLOCK, _R_TIMER = _real_threading.Lock, _real_threading.RLock, _real_threading.Timer
+_R_QUEUE, _R_CPU = multiprocessing.Queue, multiprocessing.cpu_count
+
 _loaded = [False]
 _originals = []  # (obj, attr, original value or _MISSING)
 _MISSING = object()
@@ -69,7 +74,7 @@ def install(kernel, simos):
     call uninstall() before installing another pair."""
     load_whoosh()
     if _installed[0] is not None:
-        uninstall()
+        raise HarnessError("seams already installed for another simulation")
     simthreads.set_kernel(kernel)
     thr = simthreads.SimThreadingModule(kernel)
     thr.Thread = _real_threading.Thread  # AsyncWriter derives from the real class
@@ -91,14 +96,14 @@ def install(kernel, simos):
         id(_real_tempfile): simos.tempfile,
     }
     func_map = {
-        id(_real_time.time): simos.time.time,
-        id(_real_time.sleep): simos.time.sleep,
-        id(_real_time.perf_counter): simos.time.perf_counter,
-        id(_real_threading.Lock): sim_lock_factory,
-        id(_real_threading.RLock): sim_rlock_factory,
-        id(_real_threading.Timer): simthreads.SimTimer,
-        id(multiprocessing.Queue): simthreads.SimQueue,
-        id(multiprocessing.cpu_count): (lambda: 2),
+        id(_R_TIME): simos.time.time,
+        id(_R_SLEEP): simos.time.sleep,
+        id(_R_PERF): simos.time.perf_counter,
+        id(_R_LOCK): sim_lock_factory,
+        id(_R_RLOCK): sim_rlock_factory,
+        id(_R_TIMER): simthreads.SimTimer,
+        id(_R_QUEUE): simthreads.SimQueue,
+        id(_R_CPU): (lambda: 2),
     }
     found = []
     for name, mod in sorted(sys.modules.items()):
